@@ -937,7 +937,8 @@ class ModelImpl(*_model_impl_base):
     def _check_sanity(self):
 
         for name, r in self.global_refs.items():
-            if name != "__builtins__":
+            if name != "__builtins__" and not isinstance(r.interface, Interface):
+                # modelx objects are not registered in the reference manager
                 assert id(r.interface) in self.refmgr._valid_to_refs
 
         self.refmgr._check_sanity()
@@ -1562,16 +1563,17 @@ class SpaceManager(SharedSpaceOperations):
     def _check_sanity(self):
 
         nodes = set(self._graph.nodes)
-        spaces = dict(self.model._all_spaces)
+        spaces = list(self.model._all_spaces.items())
 
         # consistency between spaces and nodes
         while spaces:
-            k, v = spaces.popitem()
+            k, v = spaces.pop()
             assert k == v.name
             assert v.idstr in nodes
             assert v is self._graph.nodes[v.idstr]["space"]
             nodes.remove(v.idstr)
-            spaces.update(v.named_spaces)
+            # Spaces at different levels can have the same name
+            spaces.extend(v.named_spaces.items())
 
         assert not nodes # Check all nodes are reached
 
